@@ -497,10 +497,9 @@ def elSem (I : String → Nat → Rat → Rat) (b : ElBlock) : List (String × L
     (b.embed.map fun s => numLine (slotVal I "value" s)) ++ (b.dens.flatten.map fun s => numLine (slotVal I "value" s))
 
 theorem write_loop_sem (I : String → Nat → Rat → Rat) (hI : ZeroFn I)
-    (hdr : Int → Rat → Int → Rat → Rat → List EamRec → List String → List Tok → List Tok)
     (nrho : Nat) (drho : Rat) (nr : Nat) (dr cutoff : Rat) (els : List El) (pairs : List PairDecl) (comments : List String) (out : List Tok) :
     ∀ (xs : List El) (wk : List Tok),
-      streamSem I (setfl_write_loop1 hdr comments cutoff dr drho (els.map toEam) (nr : Int) (nrho : Int) out (pairs.map toPot) wk setfl_density (xs.map toEam)) =
+      streamSem I (setfl_write_loop1 comments cutoff dr drho (els.map toEam) (nr : Int) (nrho : Int) out (pairs.map toPot) wk setfl_density (xs.map toEam)) =
         streamSem I out ++ streamSem I wk ++ (xs.flatMap fun e => elSem I (elBlock false els nrho drho nr dr e)) ++
           ((pairBlocks true els pairs nr dr).flatten).map (fun s => numLine (pairSlotVal I true s)) := by
   intro xs
@@ -516,20 +515,113 @@ theorem write_loop_sem (I : String → Nat → Rat → Rat) (hI : ZeroFn I)
 
 end SetflWriter
 
+namespace SetflWriter
+
+theorem flatMap_single {α β : Type} (l : List α) (g : α → β) : l.flatMap (fun a => [g a]) = l.map g := by
+  induction l with
+  | nil => rfl
+  | cons a l ih => simp [List.flatMap_cons, ih]
+
+end SetflWriter
+
 open Atsim.Gen.Logic Atsim.TokSem in
-/-- **code tie (whole file, eam/alloy)**: after the header (whose text is written by `_writeSetFLHeader`, kept opaque here: its numbers are the kernel ties
-    `C03_kernel_*`), for each element in header order its line, its `nrho` embedding values and its `nr` density values, then the pair blocks: the model's `setfl false` -/
-theorem C03_code_setfl_write (I : String → Nat → Rat → Rat) (hI : ZeroFn I)
-    (hdr : Int → Rat → Int → Rat → Rat → List EamRec → List String → List Tok → List Tok)
-    (nrho : Nat) (drho : Rat) (nr : Nat) (dr cutoff : Rat) (els : List El) (pairs : List PairDecl) (comments : List String) (out : List Tok) :
-    streamSem I (setfl_write hdr (nrho : Int) drho (nr : Int) dr cutoff (els.map toEam) (pairs.map toPot) comments out setfl_density) =
-      streamSem I out ++ streamSem I (hdr (nrho : Int) drho (nr : Int) dr cutoff (els.map toEam) comments []) ++
-        ((setfl false nrho drho nr dr els pairs).elements.flatMap fun b =>
-            [("%d %20.16e %20.16e %s\n", [(none, (b.z : Rat)), (none, b.mass), (none, b.a0), (some b.lat, 0)])] ++
-            (b.embed.map fun s => numLine (slotVal I "value" s)) ++ (b.dens.flatten.map fun s => numLine (slotVal I "value" s))) ++
-        ((setfl false nrho drho nr dr els pairs).pairs.flatten).map (fun s => numLine (pairSlotVal I true s)) := by
+/-- **code tie (header)**: `_writeSetFLHeader` writes the three comment lines, then `ntypes` with the element names in the order given, then `nrho drho nr dr cutoff` -/
+theorem C03_code_header (I : String → Nat → Rat → Rat) (nrho nr : Nat) (drho dr cutoff : Rat) (els : List El) (pairs : List PairDecl) (fs : Bool)
+    (comments : List String) (out : List Tok) :
+    streamSem I (setfl_header (nrho : Int) drho (nr : Int) dr cutoff (els.map toEam) comments out) =
+      streamSem I out ++ setflHeaderSem comments cutoff (setfl fs nrho drho nr dr els pairs) := by
+  unfold setfl_header
+  simp only [List.nil_append, SetflWriter.streamSem_append]
+  congr 1
+  have hpad : (comments ++ ["", "", ""]).take 3 = pad3 comments := rfl
+  rw [hpad]
+  simp only [setflHeaderSem, setfl, streamSem, tokSem, tokSuffix, joinToks, ovEval, List.map_cons, List.map_nil, List.map_map,
+    List.flatMap_map, List.cons_append, List.nil_append, List.flatMap_cons, List.length_map, Function.comp_def, SetflWriter.flatMap_single,
+    Int.cast_natCast, toEam]
+
+namespace SetflWriter
+open Atsim.Gen.Logic Atsim.TokSem
+
+/-- `write_loop_sem` for any density writer `wd` that means the density part of the model's element block (`fs` selects the model's variant) -/
+theorem write_loop_sem_gen (I : String → Nat → Rat → Rat) (hI : ZeroFn I) (fs : Bool)
+    (nrho : Nat) (drho : Rat) (nr : Nat) (dr cutoff : Rat) (els : List El) (pairs : List PairDecl) (comments : List String) (out : List Tok)
+    (wd : EamRec → List EamRec → Int → Rat → List Tok → List Tok)
+    (hwd : ∀ (e : El) (o : List Tok), streamSem I (wd (toEam e) (els.map toEam) (nr : Int) dr o) =
+      streamSem I o ++ ((elBlock fs els nrho drho nr dr e).dens.flatten).map (fun s => numLine (slotVal I "value" s))) :
+    ∀ (xs : List El) (wk : List Tok),
+      streamSem I (setfl_write_loop1 comments cutoff dr drho (els.map toEam) (nr : Int) (nrho : Int) out (pairs.map toPot) wk wd (xs.map toEam)) =
+        streamSem I out ++ streamSem I wk ++ (xs.flatMap fun e => elSem I (elBlock fs els nrho drho nr dr e)) ++
+          ((pairBlocks true els pairs nr dr).flatten).map (fun s => numLine (pairSlotVal I true s)) := by
+  intro xs
+  induction xs with
+  | nil =>
+    intro wk
+    simp only [List.map_nil, setfl_write_loop1, streamSem_append, C03_code_pair_pots I hI, List.flatMap_nil, List.append_nil, List.append_assoc]
+  | cons e es ih =>
+    intro wk
+    simp only [List.map_cons, setfl_write_loop1, ih, streamSem_append, hwd, C03_code_embedding I hI, C03_code_element_header,
+      List.flatMap_cons, List.nil_append, List.append_assoc, elSem]
+    simp [streamSem, tokSem, ovEval, elBlock]
+
+/-- the whole of `_writeSetFL` for such a density writer: the generated header, then the loop -/
+theorem write_sem_gen (I : String → Nat → Rat → Rat) (hI : ZeroFn I) (fs : Bool)
+    (nrho : Nat) (drho : Rat) (nr : Nat) (dr cutoff : Rat) (els : List El) (pairs : List PairDecl) (comments : List String) (out : List Tok)
+    (wd : EamRec → List EamRec → Int → Rat → List Tok → List Tok)
+    (hwd : ∀ (e : El) (o : List Tok), streamSem I (wd (toEam e) (els.map toEam) (nr : Int) dr o) =
+      streamSem I o ++ ((elBlock fs els nrho drho nr dr e).dens.flatten).map (fun s => numLine (slotVal I "value" s))) :
+    streamSem I (setfl_write (nrho : Int) drho (nr : Int) dr cutoff (els.map toEam) (pairs.map toPot) comments out wd) =
+      streamSem I out ++ setflSem I comments cutoff (setfl fs nrho drho nr dr els pairs) := by
   unfold setfl_write
-  rw [SetflWriter.write_loop_sem I hI]
-  simp only [setfl, List.flatMap_map, SetflWriter.elSem]
+  rw [write_loop_sem_gen I hI fs nrho drho nr dr cutoff els pairs comments out wd hwd, C03_code_header I nrho nr drho dr cutoff els pairs fs]
+  simp only [setflSem, setflBodySem, streamSem_nil, List.nil_append, List.append_assoc]
+  simp only [setfl, List.flatMap_map, elSem, List.append_assoc]
+
+/-- `writeSetFL` / `writeSetFLFinnisSinclair`: the cutoff handed on is the one given, or `nr*dr` when none (or zero) is given -/
+theorem write_cutoff_sem (I : String → Nat → Rat → Rat) (hI : ZeroFn I) (fs : Bool)
+    (nrho : Nat) (drho : Rat) (nr : Nat) (dr : Rat) (cutoff : Option Rat) (els : List El) (pairs : List PairDecl) (comments : List String) (out : List Tok)
+    (wd : EamRec → List EamRec → Int → Rat → List Tok → List Tok)
+    (hwd : ∀ (e : El) (o : List Tok), streamSem I (wd (toEam e) (els.map toEam) (nr : Int) dr o) =
+      streamSem I o ++ ((elBlock fs els nrho drho nr dr e).dens.flatten).map (fun s => numLine (slotVal I "value" s))) :
+    streamSem I (match cutoff with
+      | some c => (if c != 0 then setfl_write (nrho : Int) drho (nr : Int) dr c (els.map toEam) (pairs.map toPot) comments out wd
+          else setfl_write (nrho : Int) drho (nr : Int) dr ((((nr : Nat) : Int) : Rat) * dr) (els.map toEam) (pairs.map toPot) comments out wd)
+      | none => setfl_write (nrho : Int) drho (nr : Int) dr ((((nr : Nat) : Int) : Rat) * dr) (els.map toEam) (pairs.map toPot) comments out wd) =
+      streamSem I out ++ setflSem I comments (effCutoff cutoff nr dr) (setfl fs nrho drho nr dr els pairs) := by
+  cases cutoff with
+  | none => simp only [effCutoff, Int.cast_natCast]; exact write_sem_gen I hI fs nrho drho nr dr _ els pairs comments out wd hwd
+  | some c =>
+    by_cases hc : c = 0
+    · subst hc
+      simp only [effCutoff, bne_self_eq_false, Bool.false_eq_true, if_false, if_true, Int.cast_natCast]
+      exact write_sem_gen I hI fs nrho drho nr dr _ els pairs comments out wd hwd
+    · have hb : (c != 0) = true := by simpa using hc
+      simp only [effCutoff, hb, if_true, hc, if_false]
+      exact write_sem_gen I hI fs nrho drho nr dr _ els pairs comments out wd hwd
+
+end SetflWriter
+
+open Atsim.Gen.Logic Atsim.TokSem in
+/-- **code tie (whole file, eam/alloy)**: the header, then for each element in header order its line, its `nrho` embedding values and its `nr` density values, then
+    the pair blocks: the model's `setfl false` -/
+theorem C03_code_setfl_write (I : String → Nat → Rat → Rat) (hI : ZeroFn I)
+    (nrho : Nat) (drho : Rat) (nr : Nat) (dr cutoff : Rat) (els : List El) (pairs : List PairDecl) (comments : List String) (out : List Tok) :
+    streamSem I (setfl_write (nrho : Int) drho (nr : Int) dr cutoff (els.map toEam) (pairs.map toPot) comments out setfl_density) =
+      streamSem I out ++ setflSem I comments cutoff (setfl false nrho drho nr dr els pairs) := by
+  apply SetflWriter.write_sem_gen I hI false
+  intro e o
+  rw [C03_code_density I hI]
+  simp [elBlock]
+
+open Atsim.Gen.Logic Atsim.TokSem in
+/-- **code tie (the public function)**: `writeSetFL` - the cutoff written is the one given, or `nr*dr` when none (or zero) is given -/
+theorem C03_code_write_alloy (I : String → Nat → Rat → Rat) (hI : ZeroFn I)
+    (nrho : Nat) (drho : Rat) (nr : Nat) (dr : Rat) (cutoff : Option Rat) (els : List El) (pairs : List PairDecl) (comments : List String) (out : List Tok) :
+    streamSem I (setfl_write_alloy (nrho : Int) drho (nr : Int) dr (els.map toEam) (pairs.map toPot) out comments cutoff) =
+      streamSem I out ++ setflSem I comments (effCutoff cutoff nr dr) (setfl false nrho drho nr dr els pairs) := by
+  have := SetflWriter.write_cutoff_sem I hI false nrho drho nr dr cutoff els pairs comments out setfl_density
+    (by intro e o; rw [C03_code_density I hI]; simp [elBlock])
+  rw [← this]
+  unfold setfl_write_alloy
+  rfl
 
 end Atsim.C03
